@@ -588,7 +588,13 @@ pub fn act_bracket(sim: &mut Sim, ctx: &mut Ctx, kind: BracketKind) -> Option<Tx
             sim.stats.fault("tx_bracket_missing_end");
         }
         2 => {
-            ixs.insert(start_pos + 1, start.clone());
+            let mut again = start.clone();
+            if ctx.rng.chance(1, 3) {
+                // the argument-less start followed by trailing bytes (the framework ignores them)
+                again.data.extend(vec![0u8; *ctx.rng.pick(&[1usize, 8])]);
+                sim.stats.fault("tx_bracket_start_with_trailing_bytes");
+            }
+            ixs.insert(start_pos + 1, again);
             if ctx.rng.chance(1, 2) {
                 let len = *ctx.rng.pick(&[0usize, 1, 4, 7, 8]);
                 ixs.insert(start_pos + 1, Ix::foreign("allowed_foreign", ctx.world.allowed_foreign, vec![3; len]));
@@ -678,6 +684,11 @@ pub fn act_bracket(sim: &mut Sim, ctx: &mut Ctx, kind: BracketKind) -> Option<Tx
                     BracketKind::Deleverage => ix::start_deleverage(g.key, other, receiver, orm.clone()),
                 };
                 let which = ctx.rng.below(2);
+                let mut second = second;
+                if ctx.rng.chance(1, 2) {
+                    second.data.extend(vec![0u8; *ctx.rng.pick(&[1usize, 8])]);
+                    sim.stats.fault("tx_bracket_start_with_trailing_bytes");
+                }
                 ixs.insert(start_pos + 1, second);
                 if ctx.rng.chance(1, 2) {
                     // ... hidden behind a neutral instruction (short or ordinary data)
